@@ -25,9 +25,10 @@ Print Assumptions c14_flush_keeps_frags.
 (* ---------- tree level (Proofs/FragStream.v): the combined stream of document characters and markers ----------
    mstream_tree = every marker and character of the tree in document order; mstream_min = the same minus the markers that trail
    the content of a nested block (those may be dropped: their elements have no visible content behind them);
-   msub a b = a is b with only markers deleted.  Overflow off: with overflow on a marker directly after a character wider
-   than the block, followed by white space, is lost (Example marker_lost_after_overflowing_char_and_space; the shape without the
-   white space was repaired, Example marker_kept_after_overflowing_char). *)
+   msub a b = a is b with only markers deleted.  The first four statements carry the hypothesis "overflow off" from the time when a
+   marker behind a character wider than the block was lost with overflow on; both shapes of that defect are repaired (Examples
+   marker_kept_after_overflowing_char, marker_kept_after_overflowing_char_and_space) and the *_any_overflow theorems below hold
+   without the hypothesis. *)
 From H2T Require Import Sub Dom Render Api Proofs.Conserve Proofs.WrapInv Proofs.RenderWidth Proofs.Footnotes Proofs.RenderConserve Proofs.FragStream.
 Theorem c14_render_node_no_table :
   forall (d : deco) (mw : N) (n : rnode) (st st' : rstate) (s : subr) (rest : list subr),
@@ -161,4 +162,88 @@ Theorem dml_marker :
          projr body = dom_vis (NElem html name attrs kids).
 Proof. exact DomRel.dml_marker. Qed.
 Print Assumptions dml_marker.
+
+
+(* ---------- the same without the overflow hypothesis (after fixes 1b6641a and 93cbb49) ---------- *)
+From H2T Require Import Sub Css Dom Render Api CssParse Proofs.WrapInv Proofs.RenderWidth Proofs.Conserve Proofs.Footnotes Proofs.RenderConserve Proofs.OptionRel Proofs.Compose Proofs.FragStream Proofs.SimRel Proofs.Prune Proofs.DomRel.
+Theorem c14_render_tree_no_table_any_overflow :
+  forall (d : deco) (mw : N) (o : ropts) (width : N) (tree : rnode) (s : subr),
+       prefix_made d ->
+       no_table tree = true ->
+       render_tree d mw o width tree = Ok s ->
+       btw (mstream_min d tree) (mstream_out s) (mstream_tree d tree) /\
+       (forall ls : list rline,
+        sub_into_lines s = Ok ls -> btw (FragStream.strip (mstream_min d tree)) (mlines ls) (mstream_tree d tree)).
+Proof. exact FragStream.c14_render_tree_no_table_any_overflow. Qed.
+Print Assumptions c14_render_tree_no_table_any_overflow.
+
+Theorem c14_lines_from_read_any_overflow :
+  forall (ist : list (text * text) -> res (list styledecl)) (dr : list node -> res (list ruleset))
+         (c : config) (doc : list node) (width : N) (tree : rnode) (tls : list tline),
+       prefix_made (c_deco c) ->
+       to_render_tree ist dr c doc = Ok tree ->
+       no_table tree = true ->
+       lines_from_read ist dr c doc width = Ok tls ->
+       btw (FragStream.strip (mstream_min (c_deco c) tree)) (flat_map mline tls) (mstream_tree (c_deco c) tree).
+Proof. exact FragStream.c14_lines_from_read_any_overflow. Qed.
+Print Assumptions c14_lines_from_read_any_overflow.
+
+Theorem c14_markers_any_overflow :
+  forall (ist : list (text * text) -> res (list styledecl)) (dr : list node -> res (list ruleset))
+         (c : config) (doc : list node) (width : N) (tree : rnode) (tls : list tline),
+       prefix_made (c_deco c) ->
+       to_render_tree ist dr c doc = Ok tree ->
+       no_table tree = true ->
+       lines_from_read ist dr c doc width = Ok tls ->
+       let O := flat_map mline tls in
+       let T := mstream_tree (c_deco c) tree in
+       let M := FragStream.strip (mstream_min (c_deco c) tree) in
+       projr O = projr T /\
+       (forall (a : list (text + chr)) (name : text) (b : list (text + chr)),
+        O = a ++ inl name :: b ->
+        exists a' b' : list (text + chr),
+          T = a' ++ inl name :: b' /\ projr a' = projr a /\ projr b' = projr b) /\
+       (forall (a : list (text + chr)) (name : text) (b : list (text + chr)),
+        M = a ++ inl name :: b ->
+        exists a' b' : list (text + chr),
+          O = a' ++ inl name :: b' /\ projr a' = projr a /\ projr b' = projr b) /\
+       (NoDup (projl T) -> NoDup (projl O)).
+Proof. exact FragStream.c14_markers_any_overflow. Qed.
+Print Assumptions c14_markers_any_overflow.
+
+Theorem c14_dom_lines_any_overflow :
+  forall (inline_styles : list (text * text) -> res (list styledecl))
+         (doc_rules : list node -> res (list ruleset)) (c : config) (doc : list node) 
+         (width : N) (tls : list tline),
+       deco_made (c_deco c) ->
+       dom_regular doc = true ->
+       dom_ntab doc = true ->
+       doc_plain inline_styles doc_rules c doc = true ->
+       lines_from_read inline_styles doc_rules c doc width = Ok tls ->
+       btw (dom_live doc) (flat_map mline tls) (dom_all doc).
+Proof. exact DomRel.c14_dom_lines_any_overflow. Qed.
+Print Assumptions c14_dom_lines_any_overflow.
+
+Theorem c14_dom_markers_any_overflow :
+  forall (inline_styles : list (text * text) -> res (list styledecl))
+         (doc_rules : list node -> res (list ruleset)) (c : config) (doc : list node) 
+         (width : N) (tls : list tline),
+       deco_made (c_deco c) ->
+       dom_regular doc = true ->
+       dom_ntab doc = true ->
+       doc_plain inline_styles doc_rules c doc = true ->
+       lines_from_read inline_styles doc_rules c doc width = Ok tls ->
+       let O := flat_map mline tls in
+       projr O = dom_visible doc /\
+       (forall (a : list (text + chr)) (name : text) (b : list (text + chr)),
+        O = a ++ inl name :: b ->
+        exists a' b' : list (text + chr),
+          dom_all doc = a' ++ inl name :: b' /\ projr a' = projr a /\ projr b' = projr b) /\
+       (forall (a : list (text + chr)) (name : text) (b : list (text + chr)),
+        dom_live doc = a ++ inl name :: b ->
+        exists a' b' : list (text + chr),
+          O = a' ++ inl name :: b' /\ projr a' = projr a /\ projr b' = projr b) /\
+       (NoDup (projl (dom_all doc)) -> NoDup (projl O)).
+Proof. exact DomRel.c14_dom_markers_any_overflow. Qed.
+Print Assumptions c14_dom_markers_any_overflow.
 
